@@ -147,6 +147,9 @@ func fixedStyles(seed uint64) []styleCase {
 
 // subject is one document under test with its memoised baseline.
 type subject struct {
+	Original     []byte // corpus subjects: the file as it is on disk
+	OriginalJSON bool
+
 	ID    string
 	Tree  *doctree.Node
 	Prof  profile
@@ -344,17 +347,40 @@ func describeMismatch(s *subject, text []byte, base, got outcome) string {
 	return msg
 }
 
+// classOriginal: the corpus file's own bytes as one more spelling of its tree
+// (its author's formatting, anchors, folded scalars, …). It is used only when a
+// strict re-read (string keys only, no !!timestamp scalars, numbers spelled as
+// in JSON) gives exactly the tree; otherwise the case is skipped with a label.
+const classOriginal = "original"
+
 func evaluate(s *subject, sc styleCase, herr *harnessErrors) verdict {
-	text, used := doctree.Emit(s.Tree, sc.Style)
-	v := verdict{Used: used}
-	if why := readBack(s.Tree, text, sc, used); why != "" {
-		herr.add("%s: spelling %+v does not read back: %s\ntext:\n%s", s.ID, sc.Style, why, clipStr(string(text), 6000))
-		v.Skipped = why
-		return v
+	var (
+		text []byte
+		used doctree.Used
+	)
+	if sc.Style.Class == classOriginal {
+		text = s.Original
+		var got *doctree.Node
+		var err error
+		if s.OriginalJSON {
+			got, err = doctree.ParseJSON(text)
+		} else {
+			got, err = doctree.ParseYAML(text, doctree.YAMLOptions{Strict: true})
+		}
+		if err != nil || doctree.Diff(s.Tree, got) != "" || !originalNumbersVerbatim(s, text) {
+			return verdict{Skipped: "original-not-strict"}
+		}
+	} else {
+		text, used = doctree.Emit(s.Tree, sc.Style)
+		if why := readBack(s.Tree, text, sc, used); why != "" {
+			herr.add("%s: spelling %+v does not read back: %s\ntext:\n%s", s.ID, sc.Style, why, clipStr(string(text), 6000))
+			return verdict{Used: used, Skipped: why}
+		}
 	}
+	v := verdict{Used: used}
 	base := s.baseline()
 	v.Accepted = base.OK
-	yamlOrAlias := !sc.Style.IsJSON() || used.Aliases > 0
+	yamlOrAlias := !sc.Style.IsJSON() && !(sc.Style.Class == classOriginal && s.OriginalJSON) || used.Aliases > 0
 	v.NonTrivial = yamlOrAlias && s.Sens > 0
 	got := runOgen(text, s.Prof, false)
 	if got.Stage == "panic" && base.Stage != "panic" {
@@ -529,6 +555,7 @@ func corpusSubject(rel string, strict bool) (*subject, error) {
 		p.RootName = "file_reference.yml"
 	}
 	s := newSubject(rel, tree, p)
+	s.Original, s.OriginalJSON = data, strings.HasSuffix(rel, ".json")
 	subjects[key] = s
 	return s, nil
 }
@@ -608,6 +635,7 @@ func runCorpusUnit(t *testing.T, unit string, dirs []string, strict bool, fams [
 			if i%shards != shard {
 				continue
 			}
+			regress = append(regress, corpusCase{f.Rel, styleCase{famMain, doctree.Style{Class: classOriginal}}})
 			for _, sc := range fixedStyles(fileSeed(f.Rel)) {
 				regress = append(regress, corpusCase{f.Rel, sc})
 			}
@@ -651,4 +679,22 @@ func lastPart(e string) string {
 		return e[i+10:]
 	}
 	return e
+}
+
+// originalNumbersVerbatim: a YAML original may spell numbers in ways JSON cannot
+// (0x1F, 1_000, +1); the tree then holds a normalised text and the original is
+// not a spelling of the tree in the sense of this check. Cheap test: every
+// number text of the tree occurs verbatim in the file.
+func originalNumbersVerbatim(s *subject, text []byte) bool {
+	if s.OriginalJSON {
+		return true
+	}
+	ok := true
+	str := string(text)
+	s.Tree.Walk(func(_ []string, n *doctree.Node) {
+		if ok && n.Kind == doctree.Num && !strings.Contains(str, n.S) {
+			ok = false
+		}
+	})
+	return ok
 }
